@@ -565,7 +565,7 @@ let run_project (args : sx list) : sx =
              | JArr _ | JObj _ ->
                  let sel_nodes = List.concat (List.map (fun rq -> query_nodes re_full_oracle re_search_oracle e.e_keys rq mv (JObj [])) rqs) in
                  let locs = List.map fst sel_nodes in
-                 if not (selections_ok locs) then ok := false;
+                 if not (selections_deep_ok locs) then ok := false;
                  if not (keys_only locs && (st <> ProjRoot || ml = [] || keys_only [ml])) then ok2 := false;
                  let r = (match st with
                           | ProjFlat -> project_flat (List.map snd sel_nodes)
